@@ -8,9 +8,14 @@ import (
 	"bufio"
 	"context"
 	"encoding/json"
+	"errors"
+	"fmt"
+	"net"
 	"os"
+	"runtime"
 	"sort"
 	"sync"
+	"sync/atomic"
 	"testing"
 	"time"
 
@@ -25,27 +30,38 @@ type zzvSidEv struct {
 	Nx int64  `json:"nx"`
 }
 
-// zzvSidRealPair dials a real connection and wraps both ends.
-func zzvSidRealPair(t *testing.T) (d, a *Connection, cleanup func()) {
+// zzvSidReal: one real transport + listener; pair() dials a real connection and wraps both ends.
+type zzvSidReal struct {
+	tr *transport.WebSocketTransport
+	ln transport.Listener
+}
+
+func zzvSidNewReal(t *testing.T) *zzvSidReal {
 	tr := transport.NewWebSocketTransport()
 	ln, err := tr.Listen("127.0.0.1:0", transport.ListenOptions{Path: "/m", PlainText: true})
 	if err != nil {
 		t.Fatalf("zzv: listen: %v", err)
 	}
+	return &zzvSidReal{tr: tr, ln: ln}
+}
+
+func (f *zzvSidReal) close() { f.ln.Close(); f.tr.Close() }
+
+func (f *zzvSidReal) pair(t *testing.T) (d, a *Connection, cleanup func()) {
 	type acc struct {
 		c   transport.PeerConn
 		err error
 	}
 	ch := make(chan acc, 1)
 	go func() {
-		ctx, cancel := context.WithTimeout(context.Background(), 10*time.Second)
+		ctx, cancel := context.WithTimeout(context.Background(), 20*time.Second)
 		defer cancel()
-		c, err := ln.Accept(ctx)
+		c, err := f.ln.Accept(ctx)
 		ch <- acc{c, err}
 	}()
-	ctx, cancel := context.WithTimeout(context.Background(), 10*time.Second)
+	ctx, cancel := context.WithTimeout(context.Background(), 20*time.Second)
 	defer cancel()
-	dc, err := tr.Dial(ctx, "ws://"+ln.Addr().String()+"/m", transport.DialOptions{Timeout: 10 * time.Second})
+	dc, err := f.tr.Dial(ctx, "ws://"+f.ln.Addr().String()+"/m", transport.DialOptions{Timeout: 20 * time.Second})
 	if err != nil {
 		t.Fatalf("zzv: dial: %v", err)
 	}
@@ -57,7 +73,7 @@ func zzvSidRealPair(t *testing.T) (d, a *Connection, cleanup func()) {
 	idA, _ := identity.NewAgentID()
 	d = NewConnection(dc, DefaultConnectionConfig(idD))
 	a = NewConnection(ar.c, DefaultConnectionConfig(idA))
-	return d, a, func() { d.Close(); a.Close(); ln.Close(); tr.Close() }
+	return d, a, func() { d.Close(); a.Close() }
 }
 
 func TestZZVStreamIdConn(t *testing.T) {
@@ -79,8 +95,10 @@ func TestZZVStreamIdConn(t *testing.T) {
 	}
 	alloc, zero, dup, parity, cross, gaps, roleBad := 0, 0, 0, 0, 0, 0, 0
 	var samples []zzvSidEv
+	realF := zzvSidNewReal(t)
+	defer realF.close()
 	for r := 0; r < rounds; r++ {
-		d, a, cleanup := zzvSidRealPair(t)
+		d, a, cleanup := realF.pair(t)
 		if !d.IsDialer() || a.IsDialer() {
 			roleBad++
 		}
@@ -153,4 +171,234 @@ func TestZZVStreamIdConn(t *testing.T) {
 	zzvEmit("summary", map[string]any{"events": events, "rounds": rounds, "goroutines": 2 * g, "allocated": alloc, "zero": zero,
 		"dup_per_end": dup, "parity_bad": parity, "cross_end": cross, "gaps": gaps, "role_bad": roleBad, "samples": samples,
 		"transport": "ws-plaintext-loopback"})
+}
+
+// ---- replay on connection pairs (with Close), fresh-connection bursts, close-then-allocate ------------------------
+
+// zzvStubPC is a PeerConn that only knows its role (thousands of fresh Connections are needed; a real
+// transport connection is used for every ZZV_REAL_EVERY-th pair).
+type zzvStubPC struct {
+	dialer bool
+	closed atomic.Bool
+}
+
+func (p *zzvStubPC) OpenStream(ctx context.Context) (transport.Stream, error) {
+	return nil, errors.New("zzv: stub")
+}
+func (p *zzvStubPC) AcceptStream(ctx context.Context) (transport.Stream, error) {
+	<-ctx.Done()
+	return nil, ctx.Err()
+}
+func (p *zzvStubPC) Close() error                           { p.closed.Store(true); return nil }
+func (p *zzvStubPC) LocalAddr() net.Addr                    { return &net.TCPAddr{IP: net.IPv4(127, 0, 0, 1), Port: 1} }
+func (p *zzvStubPC) RemoteAddr() net.Addr                   { return &net.TCPAddr{IP: net.IPv4(127, 0, 0, 1), Port: 2} }
+func (p *zzvStubPC) IsDialer() bool                         { return p.dialer }
+func (p *zzvStubPC) TransportType() transport.TransportType { return transport.TransportWebSocket }
+
+func zzvSidStubPair() map[string]*Connection {
+	idD, _ := identity.NewAgentID()
+	idA, _ := identity.NewAgentID()
+	return map[string]*Connection{
+		"D": NewConnection(&zzvStubPC{dialer: true}, DefaultConnectionConfig(idD)),
+		"A": NewConnection(&zzvStubPC{dialer: false}, DefaultConnectionConfig(idA)),
+	}
+}
+
+// TestZZVStreamIdConnReplay replays the path cover of StreamId.tla (k = 0, actions Next and Close) on fresh
+// Connection pairs; only what the API shows is compared: the identifier every NextStreamID call returns.
+func TestZZVStreamIdConnReplay(t *testing.T) {
+	var in struct {
+		Paths []struct {
+			Steps []struct {
+				A struct {
+					Act string `json:"act"`
+					E   string `json:"e"`
+					ID  uint64 `json:"id"`
+				} `json:"a"`
+			} `json:"steps"`
+		} `json:"paths"`
+	}
+	zzvLoad(t, "ZZV_IN", &in)
+	steps, mism := 0, 0
+	for pi, path := range in.Paths {
+		conns := zzvSidStubPair()
+		closed := map[string]bool{}
+		var hist []string
+		for si, st := range path.Steps {
+			steps++
+			switch st.A.Act {
+			case "Close":
+				conns[st.A.E].Close()
+				closed[st.A.E] = true
+				hist = append(hist, "Close("+st.A.E+")")
+			case "Next":
+				id := conns[st.A.E].NextStreamID()
+				hist = append(hist, fmt.Sprintf("Next(%s)=%d", st.A.E, id))
+				if id != st.A.ID {
+					mism++
+					if mism <= 4 {
+						zzvEmit("mismatch", map[string]any{"path": pi, "step": si, "e": st.A.E, "spec_id": st.A.ID, "real_id": id,
+							"closed": closed[st.A.E], "history": hist})
+					}
+				}
+			default:
+				t.Fatalf("unknown action %q", st.A.Act)
+			}
+		}
+		for _, c := range conns {
+			c.Close()
+		}
+	}
+	zzvEmit("summary", map[string]any{"test": "connreplay", "paths": len(in.Paths), "steps": steps, "mismatches": mism})
+}
+
+// TestZZVStreamIdFresh: many FRESH connection pairs; on each a burst of goroutines (released together by a spin
+// barrier) makes the very first allocations of both ends concurrently.  On every third pair a further goroutine
+// per end closes the connection at the same instant (allocations racing with Close), and after the burst both
+// ends are closed and asked for more identifiers (close-then-allocate).
+func TestZZVStreamIdFresh(t *testing.T) {
+	fresh := zzvEnvInt("ZZV_FRESH", 3000)
+	g := zzvEnvInt("ZZV_G", 6)
+	realEvery := zzvEnvInt("ZZV_REAL_EVERY", 60)
+	f, err := os.Create(os.Getenv("ZZV_OUT"))
+	if err != nil {
+		t.Fatal(err)
+	}
+	w := bufio.NewWriter(f)
+	defer func() { w.Flush(); f.Close() }()
+	events := 0
+	put := func(ev zzvSidEv) {
+		b, _ := json.Marshal(ev)
+		w.Write(b)
+		w.WriteByte('\n')
+		events++
+	}
+	alloc, zero, dup, parity, cross, gaps, realPairs, zeroAfterClose, dupAfterClose := 0, 0, 0, 0, 0, 0, 0, 0, 0
+	var samples []map[string]any
+	var realF *zzvSidReal
+	if realEvery > 0 {
+		realF = zzvSidNewReal(t)
+		defer realF.close()
+	}
+	for r := 0; r < fresh; r++ {
+		var conns map[string]*Connection
+		cleanup := func() {}
+		if realEvery > 0 && r%realEvery == 0 {
+			d, a, cl := realF.pair(t)
+			conns, cleanup = map[string]*Connection{"D": d, "A": a}, cl
+			realPairs++
+		} else {
+			conns = zzvSidStubPair()
+		}
+		withClose := r%3 == 2
+		var mu sync.Mutex
+		got := map[string][]uint64{}
+		var wg sync.WaitGroup
+		var ready atomic.Int32
+		total := int32(2 * g)
+		if withClose {
+			total += 2
+		}
+		for _, e := range []string{"D", "A"} {
+			for i := 0; i < g; i++ {
+				wg.Add(1)
+				go func(e string) {
+					defer wg.Done()
+					c := conns[e]
+					ready.Add(1)
+					for ready.Load() < total {
+						runtime.Gosched()
+					}
+					a, b := c.NextStreamID(), c.NextStreamID()
+					mu.Lock()
+					got[e] = append(got[e], a, b)
+					mu.Unlock()
+				}(e)
+			}
+			if withClose {
+				wg.Add(1)
+				go func(e string) {
+					defer wg.Done()
+					ready.Add(1)
+					for ready.Load() < total {
+						runtime.Gosched()
+					}
+					conns[e].Close()
+				}(e)
+			}
+		}
+		wg.Wait()
+		// close-then-allocate
+		var after map[string][]uint64
+		if r%3 != 0 {
+			after = map[string][]uint64{}
+			for _, e := range []string{"D", "A"} {
+				conns[e].Close()
+				for i := 0; i < 3; i++ {
+					after[e] = append(after[e], conns[e].NextStreamID())
+				}
+			}
+		}
+		cleanup()
+		for _, c := range conns {
+			c.Close()
+		}
+		seen := map[string]map[uint64]bool{"D": {}, "A": {}}
+		put(zzvSidEv{Ev: "Reset", Nx: -1})
+		for _, e := range []string{"D", "A"} {
+			if withClose {
+				put(zzvSidEv{Ev: "Close", E: e, Nx: -1}) // raced with the burst: its place among the allocations is unknown
+			}
+			ids := append([]uint64(nil), got[e]...)
+			for _, id := range after[e] {
+				if id == 0 {
+					zeroAfterClose++
+				} else if seen[e][id] {
+					dupAfterClose++
+				}
+			}
+			ids = append(ids, after[e]...)
+			for _, id := range ids {
+				alloc++
+				if id == 0 {
+					zero++
+				}
+				if seen[e][id] {
+					dup++
+				}
+				seen[e][id] = true
+				if id != 0 && (e == "D") != (id%2 == 1) {
+					parity++
+				}
+			}
+			// allocation order per end: the burst (order of the atomic steps = by value), then - after Close - the late ones
+			burst := append([]uint64(nil), got[e]...)
+			sort.Slice(burst, func(x, y int) bool { return burst[x] < burst[y] })
+			for i, id := range burst {
+				if i > 0 && id > burst[i-1]+2 {
+					gaps++
+				}
+				put(zzvSidEv{Ev: "Next", E: e, ID: id, Nx: -1})
+			}
+			if after != nil {
+				if !withClose {
+					put(zzvSidEv{Ev: "Close", E: e, Nx: -1})
+				}
+				for _, id := range after[e] {
+					put(zzvSidEv{Ev: "Next", E: e, ID: id, Nx: -1})
+				}
+			}
+		}
+		for id := range seen["D"] {
+			if seen["A"][id] {
+				cross++
+			}
+		}
+		if len(samples) < 3 && r%3 == 2 {
+			samples = append(samples, map[string]any{"fresh_pair": r, "close_raced_with_burst": withClose, "burst_ids": got, "ids_after_close": after})
+		}
+	}
+	zzvEmit("summary", map[string]any{"test": "fresh", "events": events, "rounds": fresh, "fresh_pairs": fresh, "real_pairs": realPairs, "goroutines": 2 * g,
+		"allocated": alloc, "zero": zero, "dup_per_end": dup, "parity_bad": parity, "cross_end": cross, "gaps": gaps,
+		"zero_after_close": zeroAfterClose, "dup_after_close": dupAfterClose, "samples": samples})
 }
